@@ -211,6 +211,27 @@ class format_identified_from_content_signature:
     post = {'identified': lambda fmt, result: result == fmt}
 
 
+def identify_before_and_after(first, second, gz):
+    from externals.os_model import files
+    files()['copy.dat'] = {'content': first, 'gz': gz}
+    a = identify('read', 'copy.dat')
+    files()['copy.dat'] = {'content': second, 'gz': False}        # the same path, rewritten in the other format
+    return (a, identify('read', 'copy.dat'))
+
+
+@contract('regions/core/registry.py::RegionsRegistry.identify_format', props=['C14', 'C13'])
+class format_is_identified_from_the_current_content:
+    """what a path held when it was identified earlier does not matter: the format is that of the content it holds now"""
+    cases = {a + '-then-' + b + ('-gz' if gz else ''): {'first': a, 'second': b, 'gz': gz}
+             for a in ('ds9', 'crtf') for b in ('ds9', 'crtf') if a != b for gz in (False, True)}
+
+    def setup(B, first='ds9', second='crtf', gz=False):
+        regs = [mk(B, 'circle', 'r', 'fk5')]
+        return dict(first=first, second=second, t1=serialize(first, regs), t2=serialize(second, regs), gz=gz)
+    call = lambda t1, t2, gz: identify_before_and_after(t1, t2, gz)
+    post = {'each_time_the_format_of_the_content': lambda first, second, result: result[0] == first and result[1] == second}
+
+
 # ---------------------------------------------------------------------------- reading hands the content to the parser
 def read_with_stubbed_parser(fmt, path):
     if fmt == 'ds9':
